@@ -146,7 +146,6 @@ structure VmFlags where
 
 inductive Outcome where
   | done (mval : Int) (calls : List Nat)     -- value left in *matches (−1 = none), callback lengths in call order
-  | undefined                                   -- the C code goes on with a fiber that was killed (ACTION_CONTINUE bug)
   | outOfFuel
   deriving Repr, Inhabited, DecidableEq
 
@@ -243,10 +242,10 @@ def zeroWidthOk (e : Env) (bm : Nat) (op : Nat) : Bool :=
     !(e.fl.backwards || e.fwdSize > bm)
   else false                                  -- `default: assert(false)`
 
-/-- the `while (fiber != NULL)` loop of one input position; `none` = out of fuel, `some (st, ub)` -/
-def pass (e : Env) (bm : Nat) : Nat → List Fiber → PassSt → Option (PassSt × Bool)
+/-- the `while (fiber != NULL)` loop of one input position; `none` = out of fuel -/
+def pass (e : Env) (bm : Nat) : Nat → List Fiber → PassSt → Option PassSt
   | 0, _, _ => none
-  | fuel+1, [], st => some (st, false)
+  | fuel+1, [], st => some st
   | fuel+1, f :: rest, st =>
     let op := u8 e.code f.ip
     if isConsuming op then
@@ -258,13 +257,14 @@ def pass (e : Env) (bm : Nat) : Nat → List Fiber → PassSt → Option (PassSt
     else if op = OP_MATCH then
       let st1 := { st with mval := bm }
       if e.fl.exhaustive then pass e bm fuel rest { st1 with calls := st1.calls ++ [bm] }
-      else some (st1, false)                       -- KILL_TAIL
+      else some st1                                -- KILL_TAIL
     else if zeroWidthOk e bm op then
       match sync e.code e.syncFuel [] { f with ip := f.ip + 1 } with
       | none => none
-      | some (l, alive, _) =>
-        if alive then pass e bm fuel (l ++ rest) st          -- ACTION_CONTINUE: the same fiber is examined again
-        else some (st, true)                                 -- the synced fiber was killed: C continues on a dead fiber
+      | some (l, _, _) =>
+        -- ACTION_CONTINUE: execution goes on with the fiber that now follows the previous one: the synced fiber itself
+        -- when it survived, else the fibers it spawned, then the rest of the list
+        pass e bm fuel (l ++ rest) st
     else pass e bm fuel rest st
 
 def dedup : List Fiber → List Fiber → List Fiber
@@ -280,10 +280,9 @@ def loop (e : Env) : Nat → List Fiber → Nat → Int → List Nat → Outcome
     else
       match pass e bm 4000 (dedup fibers []) { kept := [], mval := mval, calls := calls } with
       | none => .outOfFuel
-      | some (_, true) => .undefined
-      | some (st, false) =>
+      | some st =>
         let bm' := bm + e.cs
-        if e.fl.scan && bm' < e.maxBytes then
+        if e.fl.scan && bm' ≤ e.maxBytes then     -- every position is a possible start, also the one after the last byte
           match sync e.code e.syncFuel [] { ip := e.entry } with
           | none => .outOfFuel
           | some (l, _, _) => loop e fuel (st.kept ++ l) bm' st.mval st.calls
